@@ -202,8 +202,8 @@ def worklists(F):
     return out
 
 
-@rule("C10", "G2.worklist-visits-once", floor=4)
-@rule("C06", "C06.w.worklist-visits-once", floor=4)
+@rule("C10", "G2.worklist-visits-once", floor=2)
+@rule("C06", "C06.w.worklist-visits-once", floor=2)
 def g2_worklist(F, R):
     """every worklist loop processes a node at most once: the visited test sits where the node is marked (test-and-mark at pop time, or mark at push time); a search that marks at pop time but filters at push time queues a node twice when two nodes of one level share a predecessor - duplicate, hash-order dependent diagnostics - and one without any mark does not terminate on a cycle"""
     from .p_parse import parent_map
